@@ -30,7 +30,7 @@ INV_T_EXP = -36        # numerically inverted matrices: |d - q| <= 2^-36 (|q| + 
 OR_TOL = F(1, 2 ** 38)  # oracle: defect relative to the sum of absolute contributions
 FFT_TOL = 2.0 ** -36
 
-QUICK_N = [1, 2, 3, 4, 5, 6, 7, 8, 9, 12, 16, 17, 25, 32, 33, 48, 63, 64]
+QUICK_N = [1, 2, 3, 4, 5, 6, 7, 8, 9, 12, 16, 17, 32, 33, 63, 64]
 
 
 # ----------------------------------------------------------------------------------------------- helpers
@@ -173,6 +173,7 @@ class Ctx:
         self.worst = {}
         self.rejected = []
         self.thorough = ck.tier == 'thorough'
+        self.shape_reported = set()
 
     def add(self, N, label, expr):
         self.cases.setdefault(N, []).append((label, expr))
@@ -194,6 +195,8 @@ def interval_list(rng, N, thorough):
     x0 = round(rng.uniform(-4, 4), 3)
     x1 = x0 + round(rng.uniform(0.3, 6), 3)
     out = [(-1.0, 1.0), (0.0, 1.0), (x0, x1)]
+    if not thorough and N > 33:
+        out = [(-1.0, 1.0), (x0, x1)]
     if thorough:
         out.append((-1.0, 0.789))
         out.append((float(rng.randint(-3, 3)), float(rng.randint(4, 9))))
@@ -236,8 +239,15 @@ def cheb_cases(cx, mono, N, x0, x1, rng, ref_mats):
         M = np.asarray(M, dtype=float)
         want = (N, N) if M.ndim == 2 else (N,)
         if M.shape != want:
-            cx.oracle(False, (label, N, iv), '%s has shape %s instead of %s for N=%d' % (label, M.shape, want, N),
-                      {'operator': label, 'N': N, 'interval': iv, 'shape': list(M.shape)}, 'shape')
+            cx.oracle_bad.add((label, N, iv))
+            if (label, N) not in cx.shape_reported:     # one report per (operator, N), not per interval
+                cx.shape_reported.add((label, N))
+                degenerate = label.startswith('uD') and N < int(label[2:])
+                ck.violation('%s has shape %s instead of %s for N=%d' % (label, M.shape, want, N),
+                             {'call': '%s(N=%d, x0=%r, x1=%r).get_differentiation_matrix(p=%s)' % ('UltrasphericalHelper', N, x0, x1, label[2:])
+                              if label.startswith('uD') else label,
+                              'operator': label, 'N': N, 'interval': iv, 'shape': list(M.shape), 'expected_shape': list(want)},
+                             match={'kind': 'shape', 'op': label.rstrip('0123456789'), 'N_lt_p': bool(degenerate)})
             return None
         mats[label] = M
         return M
@@ -708,8 +718,11 @@ def run(ck):
                'N from %s; intervals: reference, [0,1], seeded random (thorough: more); derivative orders 1-3; '
                'non-trivial when N >= 2; distinct by (operator, N, interval); N-D: seeded mixes of bases, sizes and axes'
                % ('1..64' if thorough else str(QUICK_N)))
-    ck.check_props(required=['C17_cheb_diff_correct', 'C17_T2U_correct', 'C17_U2T_inverse', 'C17_dirichlet_row_is_evaluation',
-                             'C17_kron_is_tensor', 'C17_ultra_matches_dense'])
+    ck.check_props(required=['C17_cheb_diff_correct', 'C17_cheb_diff_p_correct', 'C17_T2U_correct', 'C17_U2T_correct', 'C17_U2T_inverse',
+                             'C17_cheb_int_is_right_inverse', 'C17_ultra_matches_dense', 'C17_dirichlet_row_is_evaluation',
+                             'C17_neumann_row_is_derivative', 'C17_integ_row_is_integral', 'C17_kron_is_tensor',
+                             'C17_basis_change_inverse', 'C17_ultra_diff_correct_upto64', 'C17_ultra_S_correct_upto64',
+                             'C17_wavenumbers', 'C17_fourier_diff_power', 'C17_tables_are_model'])
     Ns = list(range(1, 65)) if thorough else QUICK_N
     cx = Ctx(ck)
     mono = Mono(64)
